@@ -229,7 +229,7 @@ func genArmor(ctx *Ctx, emit func(Case)) {
 					return strings.Join(words[:k], " ") + " " + string(run) + strings.Join(words[k:], " ")
 				}
 			}
-			for _, L := range []int{200, 300, 510, 511, 512, 513, 514, 600, 1000} {
+			for _, L := range []int{200, 300, 510, 511, 512, 513, 514, 600, 1000, 8189, 8190, 8191, 8192, 8193, 8194} { // … and around the decoder's own quota
 				for where := 0; where < 3; where++ {
 					for side := 0; side < 2; side++ {
 						L, where, side, brand := L, where, side, brand
